@@ -77,6 +77,10 @@ func ToString(i interface{}) (interface{}, error) {
 	case json.Number:
 		return string(val), nil
 	case time.Time:
+		if year := val.Year(); year < 0 || year > 9999 {
+			return nil, fmt.Errorf("%w: year outside of range [0,9999]: %#v (%T)", ErrUnableToCastToString, i, i)
+		}
+
 		return val.Format(TimeStringFormat), nil
 	default:
 		return nil, fmt.Errorf("%w: %#v (%T)", ErrUnableToCastToString, i, i)
